@@ -6,16 +6,28 @@ contract('parso.tree.Leaf.start_pos', kind='property', params={'self': 'ref:Leaf
          ensures=['result == (self.line, self.column)'], props=['C03'])
 contract('parso.tree.Leaf.start_pos', setter=True, params={'self': 'ref:Leaf', 'value': 'pos'},
          ensures=['self.line == value[0]', 'self.column == value[1]'], modifies=['self.line', 'self.column'], props=['C03', 'C19'])
+def _leaf_replay(mod, cls):
+    # body of check(value, line, column): returns a message when the real end_pos differs from the true end
+    return dict(observe={'value': 'self.value', 'line': 'self.line', 'column': 'self.column'},
+                script='from %s import %s\nfrom spec.text import advance, breaks\n'
+                       'if %s and breaks({value}):\n    return None\n'
+                       'l = %s({value}, ({line}, {column}))\ngot = l.end_pos\nexp = advance(({line}, {column}), {value})\n'
+                       'return None if got == exp else "end_pos %%r, true end %%r" %% (got, exp)\n'
+                       % (mod, cls, 'True' if cls != 'Leaf' else 'False', cls))
+
+
 contract('parso.tree.Leaf.end_pos', kind='property', params={'self': 'ref:Leaf'}, returns='pos',
          requires=['self is not None'],
-         ensures=['result == advance((self.line, self.column), self.value)'], props=['C03'])
+         ensures=['result == advance((self.line, self.column), self.value)'], props=['C03'],
+         replay=_leaf_replay('parso.tree', 'Leaf'))
 
 # the class invariant of leaves without newlines is established where they are created (convert_leaf, C03 regex
 # obligations): the value contains no line break
 contract('parso.python.tree._LeafWithoutNewlines.end_pos', kind='property',
          params={'self': 'ref:_LeafWithoutNewlines'}, returns='pos',
          requires=['self is not None', 'breaks(self.value) == 0'],
-         ensures=['result == advance((self.line, self.column), self.value)'], props=['C03'])
+         ensures=['result == advance((self.line, self.column), self.value)'], props=['C03'],
+         replay=_leaf_replay('parso.python.tree', 'Name'))
 
 # ---- prefix parts: value is one match of an alternative of the prefix re-lexer (class invariant, C09 regex
 # obligations re:prefix.part.*): either it ends in its only line break, or it contains none
@@ -24,7 +36,14 @@ contract('parso.python.prefix.PrefixPart.end_pos', kind='property', params={'sel
                    'implies(ends_nl(self.value), breaks(self.value) == 1)',
                    'implies(not ends_nl(self.value), breaks(self.value) == 0)'],
          ensures=['implies(not is_bom(self.value), result == advance(self.start_pos, self.value))',
-                  'implies(is_bom(self.value), result == self.start_pos)'], props=['C03', 'C09'])
+                  'implies(is_bom(self.value), result == self.start_pos)'], props=['C03', 'C09'],
+         replay=dict(observe={'value': 'self.value', 'sp': 'self.start_pos', 'typ': 'self.type'},
+                     script='from parso.python.prefix import PrefixPart\nfrom spec.text import advance, breaks, BOM\n'
+                            'ends = {value}.endswith(("\\n", "\\r"))\n'
+                            'if breaks({value}) != (1 if ends else 0):\n    return None\n'
+                            'p = PrefixPart(None, {typ}, {value}, start_pos={sp})\ngot = p.end_pos\n'
+                            'exp = {sp} if {value} == BOM else advance({sp}, {value})\n'
+                            'return None if got == exp else "end_pos %r, true end %r" % (got, exp)\n'))
 
 contract('parso.python.prefix.PrefixPart.__init__',
          params={'self': 'ref:PrefixPart', 'leaf': 'ref:Leaf', 'typ': 'str', 'value': 'str', 'spacing': 'str',
